@@ -12,7 +12,7 @@
 typedef std::vector<int> List;
 static List cat(const List& a, const List& b) { List r = a; r.insert(r.end(), b.begin(), b.end()); return r; }
 struct ImpBody { List v; int id; static int live, made; ImpBody() : id(made++) { live++; } ImpBody(ImpBody&, tbb::split) : id(made++) { live++; } ~ImpBody() { live--; }
-    void operator()(const tbb::blocked_range<int>& r) { for (int i = r.begin(); i < r.end(); i++) v.push_back(i); vtbb::interleave(); } void join(ImpBody& rhs) { v = cat(v, rhs.v); } };
+    void operator()(const tbb::blocked_range<int>& r) { for (int i = r.begin(); i < r.end(); i++) v.push_back(i); vtbb::nested(); vtbb::interleave(); } void join(ImpBody& rhs) { v = cat(v, rhs.v); } };
 int ImpBody::live = 0, ImpBody::made = 0;
 template <class F> static void with_part(int part, F f) { if (part == 0) { tbb::simple_partitioner p; f(p); } else if (part == 1) { tbb::auto_partitioner p; f(p); } else if (part == 2) { tbb::static_partitioner p; f(p); } else { tbb::affinity_partitioner p; f(p); } }
 static void check_seq(const List& r, int n, const char* what) { if ((int)r.size() != n) vf_fail("%s: result has %zu operands, expected %d", what, r.size(), n); for (int i = 0; i < n; i++) if (r[i] != i) vf_fail("%s: operand %d at position %d (operands reordered, lost or duplicated)", what, r[i], i); }
@@ -20,12 +20,12 @@ static void check_seq(const List& r, int n, const char* what) { if ((int)r.size(
 static const int NMAX = 13, GMAX = 3;
 static void c_reduce(long c) { int form = c % 2; c /= 2; int part = c % 4; c /= 4; int P = 1 + c % 3; c /= 3; int g = 1 + c % GMAX; c /= GMAX; int n = (int)c;
     vtbb::init(P); tbb::blocked_range<int> range(0, n, g);
-    if (form == 0) { List r; with_part(part, [&](auto& p) { r = tbb::parallel_reduce(range, List(), [](const tbb::blocked_range<int>& rg, List v) { for (int i = rg.begin(); i < rg.end(); i++) v.push_back(i); vtbb::interleave(); return v; }, [](const List& a, const List& b) { return cat(a, b); }, p); }); check_seq(r, n, "parallel_reduce (functional form)"); }
+    if (form == 0) { List r; with_part(part, [&](auto& p) { r = tbb::parallel_reduce(range, List(), [](const tbb::blocked_range<int>& rg, List v) { for (int i = rg.begin(); i < rg.end(); i++) v.push_back(i); vtbb::nested(); vtbb::interleave(); return v; }, [](const List& a, const List& b) { return cat(a, b); }, p); }); check_seq(r, n, "parallel_reduce (functional form)"); }
     else { ImpBody::live = ImpBody::made = 0; { ImpBody b; with_part(part, [&](auto& p) { tbb::parallel_reduce(range, b, p); }); check_seq(b.v, n, "parallel_reduce (body form)"); } if (ImpBody::live != 0) vf_fail("parallel_reduce: %d split bodies not destroyed", ImpBody::live); }
     vtbb::finish(); vf_outcome("reduce form=%d part=%d P=%d n=%d g=%d steals=%ld bodies=%d", form, part, P, n, g, vtbb::stats().steals, ImpBody::made); }
 static std::map<long, std::string>* canon;
 static void c_det(long c) { long key = c; int part = c % 2; c /= 2; int g = 1 + c % GMAX; c /= GMAX; int n = (int)c; std::string term[4]; const char* pn = part ? "static_partitioner" : "simple_partitioner";
-    for (int P = 1; P <= 3; P++) { vtbb::init(P); tbb::blocked_range<int> range(0, n, g); auto body = [](const tbb::blocked_range<int>& rg, std::string v) { vtbb::interleave(); return v + "[" + std::to_string(rg.begin()) + "," + std::to_string(rg.end()) + ")"; }; auto join = [](const std::string& a, const std::string& b) { return "(" + a + "+" + b + ")"; };
+    for (int P = 1; P <= 3; P++) { vtbb::init(P); tbb::blocked_range<int> range(0, n, g); auto body = [](const tbb::blocked_range<int>& rg, std::string v) { vtbb::nested(); vtbb::interleave(); return v + "[" + std::to_string(rg.begin()) + "," + std::to_string(rg.end()) + ")"; }; auto join = [](const std::string& a, const std::string& b) { return "(" + a + "+" + b + ")"; };
         if (part == 0) term[P] = tbb::parallel_deterministic_reduce(range, std::string(), body, join, tbb::simple_partitioner()); else term[P] = tbb::parallel_deterministic_reduce(range, std::string(), body, join, tbb::static_partitioner());
         vtbb::finish();
         // schedule independence for this (range, grain, P): every execution of this case must produce the same tree
@@ -34,12 +34,12 @@ static void c_det(long c) { long key = c; int part = c % 2; c /= 2; int g = 1 + 
         vf_fail("parallel_deterministic_reduce with static_partitioner: the split/join tree depends on the number of threads (n=%d g=%d: %s with 1 thread, %s with %d)", n, g, term[1].c_str(), term[P].c_str(), P); }
     vf_outcome("det part=%d n=%d g=%d term=%s", part, n, g, term[1].c_str()); }
 struct ScanBody { List sum; std::vector<int>* finals; std::vector<List>* prefixes; ScanBody(std::vector<int>* f, std::vector<List>* p) : finals(f), prefixes(p) {} ScanBody(ScanBody& b, tbb::split) : finals(b.finals), prefixes(b.prefixes) {}
-    template <class Tag> void operator()(const tbb::blocked_range<int>& r, Tag) { for (int i = r.begin(); i < r.end(); i++) { if (Tag::is_final_scan()) { (*finals)[i]++; (*prefixes)[i] = sum; } sum.push_back(i); } vtbb::interleave(); }
+    template <class Tag> void operator()(const tbb::blocked_range<int>& r, Tag) { for (int i = r.begin(); i < r.end(); i++) { if (Tag::is_final_scan()) { (*finals)[i]++; (*prefixes)[i] = sum; } sum.push_back(i); } vtbb::nested(); vtbb::interleave(); }
     void reverse_join(ScanBody& a) { sum = cat(a.sum, sum); } void assign(ScanBody& b) { sum = b.sum; } };
 static void c_scan(long c) { int form = c % 2; c /= 2; int part = c % 2; c /= 2; int P = 1 + c % 3; c /= 3; int g = 1 + c % GMAX; c /= GMAX; int n = (int)c;
     vtbb::init(P); tbb::blocked_range<int> range(0, n, g); std::vector<int> finals(n, 0); std::vector<List> prefixes(n); List total;
     if (form == 0) { ScanBody b(&finals, &prefixes); if (part == 0) tbb::parallel_scan(range, b, tbb::simple_partitioner()); else tbb::parallel_scan(range, b, tbb::auto_partitioner()); total = b.sum; }
-    else { auto scan = [&](const tbb::blocked_range<int>& r, List s, bool fin) { for (int i = r.begin(); i < r.end(); i++) { if (fin) { finals[i]++; prefixes[i] = s; } s.push_back(i); } vtbb::interleave(); return s; }; auto rj = [](const List& a, const List& b) { return cat(a, b); };
+    else { auto scan = [&](const tbb::blocked_range<int>& r, List s, bool fin) { for (int i = r.begin(); i < r.end(); i++) { if (fin) { finals[i]++; prefixes[i] = s; } s.push_back(i); } vtbb::nested(); vtbb::interleave(); return s; }; auto rj = [](const List& a, const List& b) { return cat(a, b); };
         if (part == 0) total = tbb::parallel_scan(range, List(), scan, rj, tbb::simple_partitioner()); else total = tbb::parallel_scan(range, List(), scan, rj, tbb::auto_partitioner()); }
     vtbb::finish(); check_seq(total, n, "parallel_scan (returned total)");
     for (int i = 0; i < n; i++) { if (finals[i] != 1) vf_fail("parallel_scan: final pass ran %d times for element %d", finals[i], i); check_seq(prefixes[i], i, "parallel_scan (incoming prefix)"); }
